@@ -988,7 +988,7 @@ class Twist3(SMTwist):
         - ``s * X`` performs elementwise multiplication of the elements of ``X`` by ``s``
         """
         if base.isscalar(left):
-            return Twist3(self.S * left)
+            return right * left
         else:
             raise ValueError('Twist3 *, incorrect left operand')
 
@@ -1454,9 +1454,9 @@ class Twist2(SMTwist):
         else:
             raise ValueError('Twist2 *, incorrect right operand')
 
-    def __rmul(self, left):
+    def __rmul__(self, left):
         if base.isscalar(left):
-            return Twist2(self.S * left)
+            return self * left
         else:
             raise ValueError('twist *, incorrect left operand')
 
